@@ -14,7 +14,8 @@ from common import bitsf, bitsv3, fbits, stable_hash, v3bits
 from framework import Check
 
 from gradysim.protocol.interface import IProtocol
-from gradysim.protocol.messages.mobility import GotoCoordsMobilityCommand, GotoGeoCoordsMobilityCommand
+from gradysim.protocol.messages.mobility import (GotoCoordsMobilityCommand, GotoGeoCoordsMobilityCommand,
+                                                 MobilityCommand, MobilityCommandType)
 from gradysim.protocol.position import geo_to_cartesian
 from gradysim.simulator.extension.camera import CameraConfiguration, CameraHardware
 from gradysim.simulator.handler.mobility import MobilityConfiguration, MobilityHandler
@@ -740,6 +741,79 @@ def geo_goto_impl(ref, targets, speed, dt, duration):
             [v3bits(sim.get_node(i).position) for i in cart_ids])
 
 
+# ---- command objects that live longer than one send -------------------------------------------
+def make_geo_objects(plan, targets):
+    """the long-lived geographic command objects of a plan, built ONCE from the geographic targets: the
+    typed GotoGeoCoordsMobilityCommand or the generic MobilityCommand(GOTO_GEO_COORDS, ...)"""
+    out = []
+    for o in plan["objects"]:
+        t = targets[o["target"]]
+        if o["form"] == "raw":
+            out.append(MobilityCommand(MobilityCommandType.GOTO_GEO_COORDS, t[0], t[1], t[2]))
+        else:
+            out.append(GotoGeoCoordsMobilityCommand(t[0], t[1], t[2]))
+    return out
+
+
+def _sender_proto(make, sends):
+    """a protocol that sends make() at each of the times `sends`: 0 = in initialize, later = from a timer"""
+    class P(_Silent):
+        def initialize(self):
+            for t in sends:
+                if t == 0.0:
+                    self.provider.send_mobility_command(make())
+                else:
+                    self.provider.schedule_timer("resend", t)
+
+        def handle_timer(self, timer):
+            self.provider.send_mobility_command(make())
+    return P
+
+
+def geo_plan_impl(ref, targets, speed, dt, duration, plan, objs):
+    """one real simulation (timer + mobility handler) for a plan of sends.  Plan node k is flown twice: by a
+    node that sends a GEOGRAPHIC goto to targets[node.target] at each of the times node.sends - the command
+    being the long-lived object objs[node.object] (possibly held by several nodes, possibly sent before, in
+    this or in an earlier simulation) or, with object None, a fresh one per send - and by a twin that sends,
+    at the same times, a CARTESIAN goto to geo_to_cartesian(ref, target) (fresh per send, or with cartShared
+    one long-lived object per target).  Returns the final positions of both, and what the long-lived
+    geographic objects carry afterwards (for the message only)."""
+    from gradysim.simulator.handler.timer import TimerHandler
+    builder = SimulationBuilder(SimulationConfiguration(duration=duration, execution_logging=False))
+    cart_objs = {}
+    ids = []
+
+    def geo_maker(nd):
+        t = targets[nd["target"]]
+        if nd["object"] is None:
+            return lambda: GotoGeoCoordsMobilityCommand(t[0], t[1], t[2])
+        return lambda: objs[nd["object"]]
+
+    def cart_maker(nd):
+        c = geo_to_cartesian(ref, targets[nd["target"]])
+        if plan.get("cartShared"):
+            if nd["target"] not in cart_objs:
+                cart_objs[nd["target"]] = GotoCoordsMobilityCommand(c[0], c[1], c[2])
+            return lambda: cart_objs[nd["target"]]
+        return lambda: GotoCoordsMobilityCommand(c[0], c[1], c[2])
+
+    for nd in plan["nodes"]:
+        sends = [bitsf(x) for x in nd["sends"]]
+        g = builder.add_node(_sender_proto(geo_maker(nd), sends), (0.0, 0.0, 0.0))
+        c = builder.add_node(_sender_proto(cart_maker(nd), sends), (0.0, 0.0, 0.0))
+        ids.append((g, c))
+    builder.add_handler(TimerHandler())
+    builder.add_handler(MobilityHandler(MobilityConfiguration(update_rate=dt, default_speed=speed,
+                                                              reference_coordinates=ref)))
+    sim = builder.build()
+    simimpl.quiet_logging()
+    sim.start_simulation()
+    return {"nodes": [{"geo": v3bits(sim.get_node(g).position), "cart": v3bits(sim.get_node(c).position)}
+                      for g, c in ids],
+            "objects": [f"{getattr(o.command_type, 'name', o.command_type)}({o.param_1!r}, {o.param_2!r}, {o.param_3!r})"
+                        for o in objs]}
+
+
 class C20(Check):
     prop = "C20"
     level_text = ("Theorems over the reals: north-south leg = R*|dphi| exactly, east-west leg = 2R*asin(cos(phi0)*|sin(dlambda/2)|) "
@@ -747,7 +821,8 @@ class C20(Check):
                   "form), exact distances along the reference meridian, the general bound (|lat0| <= 60 deg, both targets within 5 km: "
                   "converted distance within 0.3% < 0.5% of great-circle distance + altitude), a target at the reference's latitude "
                   "and longitude maps to (0, 0, altitude difference), geographic goto = Cartesian goto to "
-                  "the converted point (every scalar type).  The 1% band for 60 < |lat0| <= 80 deg is supported by the sampled "
+                  "the converted point (every scalar type), and the same geographic command sent repeatedly, by several nodes, "
+                  "after any history heads every sender for the converted ORIGINAL target (every scalar type).  The 1% band for 60 < |lat0| <= 80 deg is supported by the sampled "
                   "comparison of this check only.")
     rule = ("references over latitudes +-80 deg and all longitudes, 2-8 targets within 5 km in all four quadrants with unequal "
             "offsets, mirror pairs straddling the reference meridian / parallel, targets on the axes, targets with zero "
@@ -755,12 +830,19 @@ class C20(Check):
             "coordinate with the reference; in a share of the cases the same targets are converted and flown under 1-3 further "
             "references in the same process (other launch sites, the first reference again); bit-level agreement of "
             "geo_to_cartesian with the model; pairwise converted distance vs an independent 3-D-chord great-circle distance "
-            "(0.5% for |lat0|<=60, 1% for <=80); closed-form legs; real simulations comparing GotoGeoCoords with GotoCoords; "
+            "(0.5% for |lat0|<=60, 1% for <=80); closed-form legs; real simulations comparing GotoGeoCoords with GotoCoords, with a "
+            "fresh command per send and - in 70% of the goto cases - with command objects that live longer than one send: one "
+            "GotoGeoCoordsMobilityCommand / MobilityCommand(GOTO_GEO_COORDS) object sent by a fleet of 2-4 nodes (a rally point "
+            "kept as a constant), re-sent by one node from timers (at update instants and between them), both, or kept across "
+            "the further references of the case; each such node has a twin sending Cartesian gotos to the converted point at "
+            "the same times (fresh, or one long-lived GotoCoords object per target) and must end where the twin ends; "
             "non-trivial = a pair of targets in different quadrants with |dlat| != |dlon|")
     assumptions = ["reference latitude within +-80 deg, targets within 5 km of the reference (the small-offset regime of the property)",
                    "R = 6371000 m, the literal of position.py, is used by model and oracle alike",
                    "pairs closer than 1 m (great circle + altitude) are not judged by the relative band (float noise), only "
-                   "by the closed form"]
+                   "by the closed form",
+                   "a protocol may keep a mobility command object and send it any number of times, from any of its nodes, in "
+                   "any simulation of the process: sending hands the object over for reading only"]
     modelled = ["gradysim/protocol/position.py (_haversine_distance, geo_to_cartesian)",
                 "gradysim/simulator/handler/mobility.py (handle_command: GOTO_GEO_COORDS)"]
 
@@ -847,10 +929,53 @@ class C20(Check):
             if r.random() < 0.3:
                 sites.append(ref)
             case["sites"] = [v3bits(x) for x in sites]
+        if case["goto"] and r.random() < 0.7:
+            case["goto"]["plan"] = self._plan(r, len(targets), case["goto"], bool(case.get("sites")))
         return case
 
     @staticmethod
-    def _run_site(ref, targets, g):
+    def _plan(r, ntargets, g, has_sites):
+        """who sends which command object when (see geo_plan_impl): command objects that live longer than one
+        send.  Per chosen target one of: a CONSTANT (one object - a rally point kept at class / module level -
+        sent once by each node of a small fleet), a STORED command re-sent by one node from a timer ("keep
+        heading home"), BOTH (a fleet sharing one object, each node re-sending it), or fresh objects per send
+        with the same timing.  Send times are update instants, half-way points between them, 0 = initialize."""
+        dt, duration = bitsf(g["dt"]), bitsf(g["duration"])
+        steps = int(duration / dt)
+        grid = [j * dt for j in range(1, steps + 1)] + [j * dt + dt / 2 for j in range(0, steps)]
+        grid = [t for t in grid if t <= duration]
+
+        def later(kmax):
+            return sorted(r.sample(grid, min(len(grid), r.randint(1, kmax))))
+
+        objects, nodes = [], []
+        chosen = r.sample(range(ntargets), min(ntargets, r.randint(1, 3)))
+        for ti in chosen:
+            shape = r.choice(["constant", "constant", "stored", "stored", "both", "fresh"])
+            obj = None
+            if shape != "fresh":
+                objects.append({"form": "raw" if r.random() < 0.25 else "typed", "target": ti})
+                obj = len(objects) - 1
+            if shape == "constant":
+                for k in range(r.randint(2, 4)):
+                    first = 0.0 if k == 0 or r.random() < 0.8 else r.choice(grid)
+                    nodes.append({"target": ti, "object": obj, "sends": [first]})
+            elif shape == "stored":
+                nodes.append({"target": ti, "object": obj, "sends": [0.0] + later(3)})
+            elif shape == "both":
+                for k in range(r.randint(2, 3)):
+                    nodes.append({"target": ti, "object": obj, "sends": [0.0] + (later(2) if r.random() < 0.7 else [])})
+            else:
+                for k in range(r.randint(1, 2)):
+                    nodes.append({"target": ti, "object": None, "sends": [0.0] + later(2)})
+        for nd in nodes:
+            nd["sends"] = [fbits(t) for t in nd["sends"]]
+        return {"objects": objects, "nodes": nodes, "cartShared": r.random() < 0.3,
+                # the objects are module-level constants of the mission: the same ones under every reference
+                "acrossSites": has_sites and r.random() < 0.6}
+
+    @staticmethod
+    def _run_site(ref, targets, g, objs=None):
         out = {"points": [], "crash": None, "goto": None}
         try:
             for t in targets:
@@ -862,16 +987,24 @@ class C20(Check):
             try:
                 geo, cart = geo_goto_impl(ref, targets, bitsf(g["speed"]), bitsf(g["dt"]), bitsf(g["duration"]))
                 out["goto"] = {"geo": geo, "cart": cart}
+                plan = g.get("plan")
+                if plan:
+                    out["goto"]["plan"] = geo_plan_impl(ref, targets, bitsf(g["speed"]), bitsf(g["dt"]),
+                                                        bitsf(g["duration"]), plan,
+                                                        objs if objs is not None else make_geo_objects(plan, targets))
             except Exception as e:
                 out["goto"] = {"crash": _exc(e)}
         return out
 
     def run_impl(self, case):
         targets = [bitsv3(t) for t in case["targets"]]
-        out = self._run_site(bitsv3(case["ref"]), targets, case.get("goto"))
+        plan = (case.get("goto") or {}).get("plan")
+        # long-lived command objects: built once per simulation, or once for all references of the case
+        objs = make_geo_objects(plan, targets) if plan and plan.get("acrossSites") else None
+        out = self._run_site(bitsv3(case["ref"]), targets, case.get("goto"), objs)
         if out["crash"] is None and case.get("sites"):
             # the same targets under further references, one after the other in this process
-            out["sites"] = [self._run_site(bitsv3(x), targets, case.get("goto")) for x in case["sites"]]
+            out["sites"] = [self._run_site(bitsv3(x), targets, case.get("goto"), objs) for x in case["sites"]]
         return out
 
     def model_input(self, case, impl):
@@ -967,6 +1100,41 @@ class C20(Check):
                     if bitsf(gg["speed"]) * bitsf(gg["dt"]) * (steps - 1) >= d and list(a) != list(impl["points"][i]):
                         fails.append(("C20:goto-geo", f"{tag}ref {ref}, target {targets[i]}: after enough time the node is at "
                                       f"{bitsv3(a)}, not at the converted point {pts[i]}"))
+                self._judge_plan(ref, targets, pts, impl, gg, fails, tag)
+
+    @staticmethod
+    def _judge_plan(ref, targets, pts, impl, gg, fails, tag):
+        """the goto clause for every node of the plan: the node sent by geographic gotos ends where its twin,
+        sent at the same times by Cartesian gotos to the converted point, ends - and at the converted point
+        itself when the first send was at 0 and there was time enough - however long the command object it
+        sends has lived, whoever else sends it, however often it was sent before"""
+        plan, res = gg.get("plan"), impl["goto"].get("plan")
+        if not plan or not res:
+            return
+        steps = math.floor(bitsf(gg["duration"]) / bitsf(gg["dt"]))
+        for k, (nd, got) in enumerate(zip(plan["nodes"], res["nodes"])):
+            t = targets[nd["target"]]
+            sends = [bitsf(x) for x in nd["sends"]]
+            if nd["object"] is None:
+                how = "a fresh GotoGeoCoordsMobilityCommand per send"
+            else:
+                o = plan["objects"][nd["object"]]
+                holders = [j for j, m in enumerate(plan["nodes"]) if m["object"] == nd["object"]]
+                how = (f"ONE long-lived {'MobilityCommand(GOTO_GEO_COORDS, ...)' if o['form'] == 'raw' else 'GotoGeoCoordsMobilityCommand'}"
+                       f" object built from the target, sent by plan node(s) {holders} at times "
+                       f"{[[bitsf(x) for x in plan['nodes'][j]['sends']] for j in holders]}"
+                       f"{', kept across the references of this case' if plan.get('acrossSites') else ''}; after this run the "
+                       f"object carries {res['objects'][nd['object']]}")
+            where = f"{tag}ref {ref}, target {t}, plan node {k} sending at times {sends} ({how})"
+            if list(got["geo"]) != list(got["cart"]):
+                fails.append(("C20:goto-geo", f"{where}: the node sent by geographic gotos ended at {bitsv3(got['geo'])}, its "
+                              f"twin sent at the same times by GotoCoords to the converted point {pts[nd['target']]} ended at "
+                              f"{bitsv3(got['cart'])}"))
+            d = math.dist((0, 0, 0), pts[nd["target"]])
+            if sends[0] == 0.0 and bitsf(gg["speed"]) * bitsf(gg["dt"]) * (steps - 1) >= d and \
+                    list(got["geo"]) != list(impl["points"][nd["target"]]):
+                fails.append(("C20:goto-geo", f"{where}: after enough time the node is at {bitsv3(got['geo'])}, not at the "
+                              f"converted point {pts[nd['target']]}"))
 
     def nontrivial(self, case, impl):
         ref = bitsv3(case["ref"])
@@ -997,6 +1165,26 @@ class C20(Check):
             acc[name] = acc.get(name, 0) + 1
         if case.get("goto"):
             acc["goto_simulations"] = acc.get("goto_simulations", 0) + 1 + len(impl.get("sites") or [])
+        plan = (case.get("goto") or {}).get("plan")
+        if plan:
+            nsim = 1 + len(impl.get("sites") or [])
+            acc["goto_plans"] = acc.get("goto_plans", 0) + 1
+            acc["goto_plan_nodes"] = acc.get("goto_plan_nodes", 0) + len(plan["nodes"])
+            for k, o in enumerate(plan["objects"]):
+                handled = sum(len(nd["sends"]) for nd in plan["nodes"] if nd["object"] == k)
+                holders = sum(1 for nd in plan["nodes"] if nd["object"] == k)
+                total = handled * (nsim if plan.get("acrossSites") else 1)
+                if total > 1:
+                    acc["geo_command_objects_handled_more_than_once"] = \
+                        acc.get("geo_command_objects_handled_more_than_once", 0) + 1
+                if holders > 1:
+                    acc["geo_command_objects_held_by_several_nodes"] = \
+                        acc.get("geo_command_objects_held_by_several_nodes", 0) + 1
+                if handled > holders:
+                    acc["geo_command_objects_resent_by_a_node"] = acc.get("geo_command_objects_resent_by_a_node", 0) + 1
+                if plan.get("acrossSites") and nsim > 1:
+                    acc["geo_command_objects_kept_across_references"] = \
+                        acc.get("geo_command_objects_kept_across_references", 0) + 1
         if impl.get("sites"):
             acc["cases_with_further_references"] = acc.get("cases_with_further_references", 0) + 1
             acc["further_references"] = acc.get("further_references", 0) + len(impl["sites"])
@@ -1022,6 +1210,24 @@ class C20(Check):
                     acc[k] = max(acc.get(k, 0.0), rel)
                     acc["pairs_judged"] = acc.get("pairs_judged", 0) + 1
 
+    @staticmethod
+    def _drop_target(case, i):
+        """the case without target i; None when a plan would be left without nodes"""
+        cand = dict(case)
+        cand["targets"] = case["targets"][:i] + case["targets"][i + 1:]
+        plan = (case.get("goto") or {}).get("plan")
+        if plan:
+            down = lambda j: j - (1 if i < j else 0)
+            keep_obj = [k for k, o in enumerate(plan["objects"]) if o["target"] != i]
+            re = {k: n for n, k in enumerate(keep_obj)}
+            nodes = [dict(nd, target=down(nd["target"]), object=None if nd["object"] is None else re[nd["object"]])
+                     for nd in plan["nodes"] if nd["target"] != i]
+            if not nodes:
+                return None
+            cand["goto"] = dict(case["goto"], plan=dict(plan, nodes=nodes, objects=[
+                dict(plan["objects"][k], target=down(plan["objects"][k]["target"])) for k in keep_obj]))
+        return cand
+
     def shrink(self, case, still_fails):
         best = case
         if best.get("goto"):
@@ -1029,15 +1235,52 @@ class C20(Check):
             cand["goto"] = None
             if still_fails(cand):
                 best = cand
+        if (best.get("goto") or {}).get("plan"):
+            cand = dict(best)
+            cand["goto"] = {k: v for k, v in best["goto"].items() if k != "plan"}
+            if still_fails(cand):
+                best = cand
+        if best.get("sites"):
+            cand = {k: v for k, v in best.items() if k != "sites"}
+            if still_fails(cand):
+                best = cand
+        # plan: nodes from the end, then single sends, then the options (kept if the failure needs them)
+        changed = bool((best.get("goto") or {}).get("plan"))
+        while changed:
+            changed = False
+            plan = best["goto"]["plan"]
+            cands = []
+            for k in range(len(plan["nodes"]) - 1, -1, -1):
+                if len(plan["nodes"]) > 1:
+                    cands.append(dict(plan, nodes=plan["nodes"][:k] + plan["nodes"][k + 1:]))
+            for k, nd in enumerate(plan["nodes"]):
+                for j in range(len(nd["sends"]) - 1, -1, -1):
+                    if len(nd["sends"]) > 1:
+                        nodes = list(plan["nodes"])
+                        nodes[k] = dict(nd, sends=nd["sends"][:j] + nd["sends"][j + 1:])
+                        cands.append(dict(plan, nodes=nodes))
+            for opt in ("cartShared", "acrossSites"):
+                if plan.get(opt):
+                    cands.append(dict(plan, **{opt: False}))
+            for pl in cands:
+                cand = dict(best, goto=dict(best["goto"], plan=pl))
+                if still_fails(cand):
+                    best, changed = cand, True
+                    break
         changed = True
         while changed and len(best["targets"]) > 1:
             changed = False
             for i in range(len(best["targets"]) - 1, -1, -1):
-                cand = dict(best)
-                cand["targets"] = best["targets"][:i] + best["targets"][i + 1:]
-                if cand["targets"] and still_fails(cand):
+                cand = self._drop_target(best, i)
+                if cand and cand["targets"] and still_fails(cand):
                     best, changed = cand, True
                     break
+        if best.get("sites") and len(best["sites"]) > 1:
+            for i in range(len(best["sites"]) - 1, -1, -1):
+                if len(best["sites"]) > 1:
+                    cand = dict(best, sites=best["sites"][:i] + best["sites"][i + 1:])
+                    if still_fails(cand):
+                        best = cand
         return best
 
 
